@@ -349,6 +349,25 @@ func (p *Program) Features() []string {
 	for _, k := range p.Packets {
 		walk(k, false)
 	}
+	// field names that are reserved words of a target language
+	kw := map[string]bool{}
+	for _, w := range keywordNames {
+		kw[w] = true
+	}
+	var kwWalk func(k *Packet)
+	kwWalk = func(k *Packet) {
+		for _, f := range k.Fields {
+			if kw[f.Name] {
+				set["names:keyword"] = true
+			}
+			if f.Inline != nil {
+				kwWalk(f.Inline)
+			}
+		}
+	}
+	for _, k := range p.Packets {
+		kwWalk(k)
+	}
 	// two packets whose match fields use a key field of the same name (names are packet-scoped)
 	keyOwners := map[string]int{}
 	for _, k := range p.Packets {
